@@ -3,5 +3,14 @@ CLAIMED = {
  "C01": ("all-paths exactly-once event analysis on SSA CFG + value-identity wiring check + constant folding of HasWork + who-may-write", _T, "DESIGN.md §3 C01"),
  "C12": ("who-may-write on the reactor state table + edge-dominance (token arm / loaded / closed-check guards) + all-paths must-pass rules on SSA", _T, "DESIGN.md §3 C12"),
 }
+
+CLAIMED.update({
+ "C02": ("all-paths must-pass rule Do→feedback-wait→ItemArchived with WARCWriteAsync edge pruning + writer/reader context-key agreement with the linked warc module + who-may-call + drain-to-EOF guard rule + def-use chain of the discard hook", _T, "DESIGN.md §3 C02"),
+ "C03": ("call-precedence (must-pass) rules on stopPipeline + goroutine/WaitGroup pairing + blocking-channel-operation scan of every waited goroutine with derived exemptions + nil-guard dominance on the WARC clients", _T, "DESIGN.md §3 C03"),
+ "C05": ("all-paths edge-removal analysis of the preprocess gate loop + interprocedural validation summaries for NormalizeURL + who-may-call on request construction and HTTP egress", _T, "DESIGN.md §3 C05"),
+ "C08": ("accessor-chain agreement (writer/reader) + guard dominance in both SeencheckItem variants + must-pass record-or-mark / hash-reset path rules + map-order effect scan", _T, "DESIGN.md §3 C08"),
+ "C09": ("effect scan (map range / clock / random / package state) over everything reachable from URL.String and NormalizeURL + validation summaries for the accepted URL shape + split-before-unescape dataflow rule", _T, "DESIGN.md §3 C09"),
+ "C14": ("per-worker select-arm path rules (pause arm ⇒ abandonable resume offer) + guard dominance and mutex pairing in pause.Resume/Pause + close/delete ordering", _T, "DESIGN.md §3 C14"),
+})
 _P = "check not built yet in this round; planned rules in DESIGN.md §3 — not claimed until the rule runs"
 NOT_APPLICABLE = {f"C{i:02d}": _P for i in range(1, 20)}
